@@ -27,7 +27,9 @@ import time
 
 VERIF = os.path.dirname(os.path.dirname(os.path.abspath(__file__)))
 LEAN = os.path.join(VERIF, 'lean')
-DRIVER = os.path.join(LEAN, '.lake', 'build', 'bin', 'verif_driver')
+def driver_path(prop):
+    return os.path.join(LEAN, '.lake', 'build', 'bin', 'drv_' + prop.lower())
+
 REPO = os.environ.get('GLOM_REPO', '/repo')
 ALLOWED_AXIOMS = {'propext', 'Classical.choice', 'Quot.sound'}
 FORBIDDEN = re.compile(r'\bsorry\b|\badmit\b|^axiom |native_decide|bv_decide|implemented_by|\bunsafe |maxHeartbeats 0')
@@ -58,7 +60,7 @@ def sh(cmd, cwd=None, timeout=3600, env=None):
     return p.returncode, p.stdout
 
 
-def build(lean_modules):
+def build(prop, lean_modules):
     """regenerate facts from /repo, rebuild driver and the property's proof modules"""
     res = {'extract_problems': [], 'facts_changed': [], 'driver_ok': False,
            'props_ok': {}, 'logs': {}}
@@ -72,7 +74,7 @@ def build(lean_modules):
             res['facts_changed'] = rep['changed']
         except Exception:
             res['extract_problems'] = ['extractor crashed: ' + out[-2000:]]
-        rc, out = sh(['lake', 'build', 'verif_driver'], cwd=LEAN)
+        rc, out = sh(['lake', 'build', 'drv_' + prop.lower()], cwd=LEAN)
         res['driver_ok'] = (rc == 0)
         res['logs']['driver'] = out[-4000:] if rc else ''
         for m in lean_modules:
@@ -145,10 +147,9 @@ def run_driver(prop, cases):
     lines = []
     for i, c in enumerate(cases):
         d = dict(c)
-        d['prop'] = prop
         d['case'] = i
         lines.append(json.dumps(d, separators=(',', ':')))
-    p = subprocess.run([DRIVER], input='\n'.join(lines) + '\n', stdout=subprocess.PIPE,
+    p = subprocess.run([driver_path(prop)], input='\n'.join(lines) + '\n', stdout=subprocess.PIPE,
                        stderr=subprocess.PIPE, text=True)
     verdicts = [None] * len(cases)
     for line in p.stdout.splitlines():
@@ -287,7 +288,7 @@ def main_check(mod, argv):
         return replay(mod, args.replay)
 
     # 1. facts + build
-    b = build(mod.LEAN_MODULES) if not args.no_build else {
+    b = build(prop, mod.LEAN_MODULES) if not args.no_build else {
         'extract_problems': [], 'facts_changed': [], 'driver_ok': True,
         'props_ok': {m: True for m in mod.LEAN_MODULES}, 'logs': {}}
     if not b['driver_ok']:
@@ -332,8 +333,11 @@ def main_check(mod, argv):
             new_failures.append((c, v))
 
     tie_problems = []
-    if b['extract_problems']:
-        tie_problems.append({'kind': 'extractor', 'detail': b['extract_problems']})
+    fact_files = set(getattr(mod, 'FACT_FILES', [])) | {'general'}
+    my_problems = [x for x in b['extract_problems'] if x.split(':', 1)[0] in fact_files
+                   or ':' not in x]
+    if my_problems:
+        tie_problems.append({'kind': 'extractor', 'detail': my_problems})
     for m in broken_modules:
         tie_problems.append({'kind': 'proof-obligation', 'module': m,
                              'detail': first_error(b['logs'].get(m, ''))})
